@@ -114,7 +114,7 @@ Proof.
   assert (AC : forall i y, nth_error (insts s2) i = Some y -> irec y = r -> icanc y = true).
   { intros i y. unfold s2. rewrite <- X1. apply all_cancelled. exact L1. }
   cbn zeta. fold s1. fold s2. set (n := length (insts s2)).
-  set (X := {| irec := r; ikey := rkey x; ilin := rlin x; iwait := w; ipcv := IGate0; icanc := false; iexit := false;
+  set (X := {| irec := r; ikey := rkey x; ilin := rlin x; iwait := w; ipcv := IGate0; icanc := root_canc s c; iexit := false;
                idata := rdata x; iroot := c |}).
   intros i y Hy. rewrite insts_setr in Hy. cbn [insts set_insts] in Hy.
   assert (Hr2 : r < length (recs s2)) by (rewrite C2, T2; exact M1).
@@ -357,9 +357,12 @@ Proof.
   cbn [fst]. now apply Good_remove_key.
 Qed.
 
+Lemma Good_norm_ctx s : W s -> Good s (norm_ctx s).
+Proof. intros H. unfold norm_ctx. destruct (root_canc s (kctx s)); [apply Good_ext; try reflexivity; exact H | now apply Good_refl]. Qed.
+
 Lemma Good_sync_keys fx s keys restart : W s -> Good s (fst (sync_keys fx s keys restart)).
 Proof.
-  intros H. unfold sync_keys.
+  intros H. unfold sync_keys. eapply Good_trans; [now apply Good_norm_ctx|]. clear H. generalize (norm_ctx s). clear s. intros s H. unfold sync_core.
   pose proof (Good_fold_acc (fun acc : st * list nat * list nat => fst (fst acc)) (sync_one fx restart) (Good_sync_one fx restart) keys (s, [], []) H) as G1.
   destruct (fold_left (sync_one fx restart) keys (s, [], [])) as [[s1 seen] added]. cbn [fst] in G1.
   pose proof (Good_fold_acc (fun acc : st * list nat => fst acc) (sync_rm keys) (Good_sync_rm keys) (map fst (kmap s1)) (s1, []) (Good_W _ _ G1)) as G2.
@@ -401,7 +404,8 @@ Qed.
 
 Lemma Good_restart_routine s k cond : W s -> Good s (fst (restart_routine s k cond)).
 Proof.
-  intros H. unfold restart_routine. destruct (lookup (kmap s) k) as [r|] eqn:Ek; [|now apply Good_refl].
+  intros H. unfold restart_routine. eapply Good_trans; [now apply Good_norm_ctx|]. clear H. generalize (norm_ctx s). clear s. intros s H. unfold restart_core.
+  destruct (lookup (kmap s) k) as [r|] eqn:Ek; [|now apply Good_refl].
   destruct (negb (has_ctx s)); [now apply Good_refl|]. destruct (negb (cond_match cond k)); [now apply Good_refl|].
   cbn [fst].
   eapply Good_trans; [apply (Good_cancel_forget s k r (with_cancel (getr s r) None) H Ek); try reflexivity; now left|].
@@ -416,7 +420,8 @@ Qed.
 
 Lemma Good_reset_routine s k cond : W s -> Good s (fst (reset_routine repaired s k cond)).
 Proof.
-  intros H. unfold reset_routine. destruct (lookup (kmap s) k) as [r|] eqn:Ek; [|now apply Good_refl].
+  intros H. unfold reset_routine. eapply Good_trans; [now apply Good_norm_ctx|]. clear H. generalize (norm_ctx s). clear s. intros s H. unfold reset_core.
+  destruct (lookup (kmap s) k) as [r|] eqn:Ek; [|now apply Good_refl].
   destruct (negb (cond_match cond k)); [now apply Good_refl|].
   set (x := getr s r). set (s1 := cancel_inst s (rcancel x)).
   destruct H as [A B].
@@ -595,6 +600,31 @@ Proof.
     eapply Good_trans; [exact G1|]. intros H1. eapply Good_start; [exact H1 | apply in_map_lookup; exact Em].
 Qed.
 
+(* the owner cancels a root context: cancellation flags are only set, never cleared *)
+Lemma InvL_cancel_root s c : InvL s -> InvL (cancel_root s c).
+Proof.
+  intros H. unfold cancel_root. destruct (Nat.eqb c 0); [exact H|].
+  intros i y Hy. cbn [insts set_croots set_insts] in Hy.
+  destruct (nth_error_map_inv _ _ i y Hy) as [x [Hx ->]]. destruct (H i x Hx) as [A [B [C D]]].
+  unfold InstOK.
+  match goal with |- context [getr ?S] => change (getr S) with (getr s) end.
+  cbn [recs kmap set_croots set_insts].
+  destruct (Nat.eqb (iroot x) c); [|split; [exact A|]; split; [exact B|]; split; [exact C | exact D]].
+  cbn [irec ilin ikey icanc with_canc]. split; [exact A|]. split; [exact B|]. split; [exact C|]. discriminate.
+Qed.
+Lemma Dead_cancel_root r n0 s c : Dead r n0 s -> Dead r n0 (cancel_root s c).
+Proof.
+  intros [A [B C]]. unfold cancel_root. destruct (Nat.eqb c 0); [exact (conj A (conj B C))|].
+  split; [exact A|]. split; [exact B|]. intros i y Hi Hy. cbn [insts set_croots set_insts] in Hy.
+  destruct (nth_error_map_inv _ _ i y Hy) as [x [Hx ->]].
+  assert (E : irec (if Nat.eqb (iroot x) c then with_canc x else x) = irec x) by (destruct (Nat.eqb (iroot x) c); reflexivity).
+  rewrite E. eapply C; eauto.
+Qed.
+Lemma Good_cancel_root s c : W s -> Good s (cancel_root s c).
+Proof.
+  intros [A B]. split; [split; [now apply cancel_root_inv | now apply InvL_cancel_root]|]. intros q n0. apply Dead_cancel_root.
+Qed.
+
 Theorem Good_step s e : W s -> Good s (step repaired s e).
 Proof.
   intros H. destruct e; cbn [step].
@@ -617,6 +647,7 @@ Proof.
   - destruct H as [A B]. split; [split; [now apply bookkeep_inv | now apply InvL_bookkeep]|]. intros q n0. apply Dead_bookkeep.
   - unfold advance. apply Good_ext; try reflexivity. exact H.
   - now apply Good_timer_cb.
+  - now apply Good_cancel_root.
 Qed.
 
 Lemma init_W dl sc : W (init dl sc).
@@ -641,12 +672,12 @@ Theorem at_most_one_in_user_per_lineage dl sc es L : cnt (in_user_lin L) (insts 
 Proof. apply InvI_at_most_one_in_user. apply run_inv. Qed.
 
 (* instances of the records registered under one key while it stays in the set share the lineage: ResetRoutine keeps it *)
-Lemma reset_keeps_lineage s k cond r :
+Lemma reset_core_keeps_lineage s k cond r :
   lookup (kmap s) k = Some r -> cond_match cond k = true ->
-  exists r', lookup (kmap (fst (reset_routine repaired s k cond))) k = Some r' /\
-             rlin (getr (fst (reset_routine repaired s k cond)) r') = rlin (getr s r).
+  exists r', lookup (kmap (fst (reset_core repaired s k cond))) k = Some r' /\
+             rlin (getr (fst (reset_core repaired s k cond)) r') = rlin (getr s r).
 Proof.
-  intros Hk Hc. unfold reset_routine. rewrite Hk, Hc. cbn [negb].
+  intros Hk Hc. unfold reset_core. rewrite Hk, Hc. cbn [negb].
   set (x := getr s r). set (s1 := cancel_inst s (rcancel x)). cbn [fx_reset repaired]. rewrite orb_true_r.
   pose proof (new_record_frame s1 k (rlin x) (rexit x)) as F.
   destruct (new_record s1 k (rlin x) (rexit x)) as [s2 r2] eqn:En. cbn [fst snd] in *.
@@ -661,6 +692,19 @@ Proof.
       rewrite C1, T1, F5, lookup_insert_same. split; [reflexivity|].
       rewrite getr_setr_same; [cbn; exact F9|]. cbn [recs set_insts]. rewrite C2, T2, F6, F0. lia.
   - cbn [fst]. rewrite F5, lookup_insert_same. auto.
+Qed.
+
+Lemma norm_ctx_same s : kmap (norm_ctx s) = kmap s /\ recs (norm_ctx s) = recs s /\ insts (norm_ctx s) = insts s /\
+                         timers (norm_ctx s) = timers s /\ croots (norm_ctx s) = croots s.
+Proof. unfold norm_ctx. destruct (root_canc s (kctx s)); repeat split; reflexivity. Qed.
+Lemma reset_keeps_lineage s k cond r :
+  lookup (kmap s) k = Some r -> cond_match cond k = true ->
+  exists r', lookup (kmap (fst (reset_routine repaired s k cond))) k = Some r' /\
+             rlin (getr (fst (reset_routine repaired s k cond)) r') = rlin (getr s r).
+Proof.
+  intros Hk Hc. unfold reset_routine. destruct (norm_ctx_same s) as [E1 [E2 _]].
+  replace (getr s r) with (getr (norm_ctx s) r) by (unfold getr; now rewrite E2).
+  apply reset_core_keeps_lineage; [now rewrite E1 | exact Hc].
 Qed.
 
 (* an instance of a record that is not registered has a cancelled context *)
@@ -852,12 +896,18 @@ Proof. vm_compute. repeat split; reflexivity. Qed.
 
 (* ------------------------------------------------------------------ *)
 (* nothing is started while the container has no context *)
-Definition NS (s s' : st) : Prop := kctx s' = kctx s /\ (kctx s = 0 -> length (insts s') = length (insts s)).
+(* (the container's context is only ever changed by SetContext, or dropped because its owner cancelled it) *)
+Definition NS (s s' : st) : Prop := (kctx s' = kctx s \/ kctx s' = 0) /\ (kctx s = 0 -> length (insts s') = length (insts s)).
 Lemma NS_refl s : NS s s. Proof. split; auto. Qed.
 Lemma NS_trans s s1 s2 : NS s s1 -> NS s1 s2 -> NS s s2.
-Proof. intros [A1 A2] [B1 B2]. split; [congruence|]. intros H. rewrite B2 by congruence. auto. Qed.
+Proof.
+  intros [A1 A2] [B1 B2]. split; [destruct A1 as [A1|A1], B1 as [B1|B1]; [left|right|right|right]; congruence|].
+  intros H. rewrite B2 by (destruct A1; congruence). auto.
+Qed.
 Lemma NS_ext s s' : kctx s' = kctx s -> length (insts s') = length (insts s) -> NS s s'.
 Proof. intros A B. split; auto. Qed.
+Lemma NS_norm_ctx s : NS s (norm_ctx s).
+Proof. unfold norm_ctx. destruct (root_canc s (kctx s)); [split; [now right | reflexivity] | apply NS_refl]. Qed.
 Ltac nse := apply NS_ext; reflexivity.
 Lemma NS_cancel_inst s oi : NS s (cancel_inst s oi).
 Proof. destruct (cancel_inst_frame s oi) as [_ [_ [_ [_ [C5 [_ [_ [_ [_ [_ C11]]]]]]]]]]. now apply NS_ext. Qed.
@@ -865,7 +915,7 @@ Lemma NS_stop_timer s ot : NS s (stop_timer s ot).
 Proof. destruct (stop_timer_frame s ot) as [_ [_ [T3 [_ [T5 _]]]]]. apply NS_ext; [exact T5 | now rewrite T3]. Qed.
 Lemma NS_start s r c w f : has_ctx s = true -> NS s (start_rec s r c w f).
 Proof.
-  intros H. split; [|intros E; unfold has_ctx in H; rewrite E in H; discriminate].
+  intros H. split; [left|intros E; unfold has_ctx in H; rewrite E in H; discriminate].
   unfold start_rec. cases; try reflexivity. cbn [kctx setr set_recs set_insts].
   destruct (cancel_inst_frame (stop_timer s (rretry (getr s r))) (rcancel (getr s r))) as [_ [_ [_ [_ [C5 _]]]]].
   destruct (stop_timer_frame s (rretry (getr s r))) as [_ [_ [_ [_ [T5 _]]]]]. congruence.
@@ -908,7 +958,7 @@ Lemma NS_sync_rm keys acc k : NS (fst acc) (fst (sync_rm keys acc k)).
 Proof. destruct acc as [s removed]. unfold sync_rm. destruct (mem k keys); cbn [fst]; [apply NS_refl | apply NS_remove_key]. Qed.
 Lemma NS_sync_keys s keys restart : NS s (fst (sync_keys repaired s keys restart)).
 Proof.
-  unfold sync_keys.
+  unfold sync_keys. eapply NS_trans; [apply NS_norm_ctx|]. generalize (norm_ctx s). clear s. intros s. unfold sync_core.
   pose proof (NS_fold_acc (fun acc : st * list nat * list nat => fst (fst acc)) (sync_one repaired restart) (NS_sync_one restart) keys (s, [], [])) as G1.
   destruct (fold_left (sync_one repaired restart) keys (s, [], [])) as [[s1 seen] added]. cbn [fst] in G1.
   pose proof (NS_fold_acc (fun acc : st * list nat => fst acc) (sync_rm keys) (NS_sync_rm keys) (map fst (kmap s1)) (s1, [])) as G2.
@@ -916,14 +966,16 @@ Proof.
 Qed.
 Lemma NS_reset_routine s k cond : NS s (fst (reset_routine repaired s k cond)).
 Proof.
-  unfold reset_routine. destruct (lookup (kmap s) k) as [r|]; [|apply NS_refl]. destruct (negb (cond_match cond k)); [apply NS_refl|].
+  unfold reset_routine. eapply NS_trans; [apply NS_norm_ctx|]. generalize (norm_ctx s). clear s. intros s. unfold reset_core.
+  destruct (lookup (kmap s) k) as [r|]; [|apply NS_refl]. destruct (negb (cond_match cond k)); [apply NS_refl|].
   set (s1 := cancel_inst s (rcancel (getr s r))). set (w0 := if has_ctx s1 || fx_reset repaired then _ else _).
   pose proof (NS_new_record s1 k (rlin (getr s r)) w0) as G. destruct (new_record s1 k (rlin (getr s r)) w0) as [s2 r2]. cbn [fst] in *.
   eapply NS_trans; [apply NS_cancel_inst|]. fold s1. eapply NS_trans; [exact G | apply NS_start_if'].
 Qed.
 Lemma NS_restart_routine s k cond : NS s (fst (restart_routine s k cond)).
 Proof.
-  unfold restart_routine. destruct (lookup (kmap s) k) as [r|]; [|apply NS_refl].
+  unfold restart_routine. eapply NS_trans; [apply NS_norm_ctx|]. generalize (norm_ctx s). clear s. intros s. unfold restart_core.
+  destruct (lookup (kmap s) k) as [r|]; [|apply NS_refl].
   destruct (has_ctx s) eqn:E; cbn [negb]; [|apply NS_refl]. destruct (negb (cond_match cond k)); [apply NS_refl|]. cbn [fst].
   eapply (NS_trans _ (setr (cancel_inst s (rcancel (getr s r))) r (with_cancel (getr s r) None))); [eapply NS_trans; [apply NS_cancel_inst | nse]|].
   apply NS_start. unfold has_ctx in *. cbn [kctx setr set_recs]. destruct (cancel_inst_frame s (rcancel (getr s r))) as [_ [_ [_ [_ [C5 _]]]]]. now rewrite C5.
@@ -1004,4 +1056,5 @@ Proof.
   - now apply NS_bookkeep.
   - reflexivity.
   - now apply NS_timer_cb.
+  - unfold cancel_root. destruct (Nat.eqb c 0); [reflexivity|]. cbn [insts set_croots set_insts]. apply map_length.
 Qed.
